@@ -8,12 +8,14 @@
    with the sortedness proof (`SMap`), so that structural equality of graphs is equality of the
    mathematical objects. Node ids are small naturals whose order is the order of the serialized
    public keys (`NodeId: Ord`). `NodeInfo.channels` is a `Vec<u64>` in arrival order in the Rust code;
-   the model keeps it as a sorted set (the harness sorts it before comparing) — see cfg `modelled`.
+   this file keeps it as a sorted set; the order is carried next to it by Model/GossipOrder.lean.
 
    ECDSA is trusted: a message carries one validity flag per required signature (`ChanAnn`,
    `NodeAnn`), or the identity of the signer (`ChanUpd`, whose signature is checked against the node id
-   *stored in the graph* for that direction). UTXO lookup is not modelled: its synchronous result is
-   a parameter of the announcement (`Utxo`); asynchronous lookups (`PendingChecks`) are not modelled.
+   *stored in the graph* for that direction). The UTXO lookup's synchronous answer is a parameter of the
+   announcement (`Utxo`); asynchronous lookups (`PendingChecks`, utxo.rs) are the layer of Model/GossipAsync.lean
+   on top of this file; the persisted form is Model/GossipPersist.lean, the arrival order of a node's channel
+   list Model/GossipOrder.lean.
    LAYERS. The functions of this file outside `namespace Impl` are the hand-written SPECIFICATION of the
    handlers (what the 1700 lines of Proofs/Gossip.lean reason about). `namespace Impl` (end of the file) is
    the MODEL THE DRIVER RUNS and the property theorems are stated about: the same handlers, but every
